@@ -557,3 +557,171 @@ Example C03_zero_read_then_next_reader_differs :
   fst (run_ops inflate ReadProgDemo.ex_cfg s [ORead 3]) = [RData [] (Some unexpected_eof)].
 Proof. exact zero_read_then_next_reader_differs. Qed.
 Print Assumptions C03_zero_read_then_next_reader_differs.
+
+(* ====================================================================================== *)
+(* JoinMessages (join.go).  Model: Model/Join.v (joinReader.Read on top of NextReader and   *)
+(* messageReader.Read, io.MultiReader and strings.Reader followed literally); proofs:       *)
+(* Proofs/JoinP.v; executable judge: Cases/C03k.v (kind 28).                                *)
+(* Setting of the theorems below: default handlers, any role, any bufio state b (buffer >= *)
+(* 125, any initial content, any transport chunking, any fault kind, glued to the last      *)
+(* bytes or not) whose pending bytes are exactly the encoding of the conformant uncompressed*)
+(* frame list fs in which at least one control frame follows the last data frame, any term, *)
+(* any list l of POSITIVE buffer sizes, one per call of Read.                               *)
+(*   joined term ms = flat_map (fun m => snd m ++ term) ms    (the messages, each followed  *)
+(*   by term);  jbytes outs = the bytes returned by the calls, concatenated;  join_run      *)
+(*   stops at the call on which NextReader panics (its 1000th failure).                     *)
+(* PARTIAL with respect to the property text: uncompressed streams only (the reader model   *)
+(* has no Read-level access to compressed messages); zero-length buffers are modelled       *)
+(* (Model/Join.v, judged by kind 28) but not covered by these theorems.                     *)
+(* ====================================================================================== *)
+Require Import WS.Model.Join WS.Proofs.JoinP.
+
+(* the exact behaviour, call by call: the calls l1 made while messages are left follow
+   [jsteps] -- head entry of [segs] (rest of the current message followed by term) not empty:
+   1..len(p) bytes of it, nil; empty: (0, nil) and the entry is finished -- and every later
+   call returns ([], end-of-stream error), at most 999 times (then NextReader panics) *)
+Theorem C03_join_calls_exact :
+  forall inflate c b fs term l,
+    custom_handlers c = false -> binv b -> (125 <= bsize b)%nat ->
+    conformant_frames c fs -> pending b = encode_frames fs -> trailer fs <> [] ->
+    Forall (fun m => (0 < m)%nat) l ->
+    exists l1 l2 o1 segs1, l = l1 ++ l2 /\
+      jsteps (map (fun m : N * bool * bytes => snd m ++ term) (data_msgs (events_of fs))) l1 o1 segs1 /\
+      (l2 = [] \/ segs1 = []) /\
+      join_run inflate c (init_rst b) term l =
+        o1 ++ repeat ([], Some (of_berror (BErr (fault (src b))))) (min (length l2) 999).
+Proof. exact join_closed. Qed.
+Print Assumptions C03_join_calls_exact.
+
+(* (a) the bytes returned are a prefix of the joined messages, no call returns more than its
+   buffer, and a call returns an error only when everything has been delivered before it *)
+Theorem C03_join_prefix :
+  forall inflate c b fs term l,
+    custom_handlers c = false -> binv b -> (125 <= bsize b)%nat ->
+    conformant_frames c fs -> pending b = encode_frames fs -> trailer fs <> [] ->
+    Forall (fun m => (0 < m)%nat) l ->
+    let outs := join_run inflate c (init_rst b) term l in
+    let W := joined term (data_msgs (events_of fs)) in
+    (exists rest, W = jbytes outs ++ rest) /\
+    Forall2 (fun m (o:jout) => (length (fst o) <= m)%nat) (firstn (length outs) l) outs /\
+    (forall i x e, nth_error outs i = Some (x, Some e) -> jbytes (firstn i outs) = W).
+Proof. exact join_prefix. Qed.
+Print Assumptions C03_join_prefix.
+
+(* (b) progress: (number of bytes + number of messages) calls deliver everything; exactly one
+   call per message returns 0 bytes with a nil error (the call on which the message reader,
+   resp. the MultiReader when term <> "", reports io.EOF) *)
+Theorem C03_join_complete :
+  forall inflate c b fs term l,
+    custom_handlers c = false -> binv b -> (125 <= bsize b)%nat ->
+    conformant_frames c fs -> pending b = encode_frames fs -> trailer fs <> [] ->
+    Forall (fun m => (0 < m)%nat) l ->
+    let outs := join_run inflate c (init_rst b) term l in
+    let ms := data_msgs (events_of fs) in
+    (length (joined term ms) + length ms <= length l)%nat ->
+    jbytes outs = joined term ms /\ length (filter silent outs) = length ms.
+Proof. exact join_complete. Qed.
+Print Assumptions C03_join_complete.
+
+(* (c) io.EOF is never returned; the first error is the transport's fault as NextReader maps
+   it at the end of the stream (EOF becomes CloseError 1006 "unexpected EOF"), it comes with
+   no byte, after everything, and every later call returns it again *)
+Theorem C03_join_first_error :
+  forall inflate c b fs term l,
+    custom_handlers c = false -> binv b -> (125 <= bsize b)%nat ->
+    conformant_frames c fs -> pending b = encode_frames fs -> trailer fs <> [] ->
+    Forall (fun m => (0 < m)%nat) l ->
+    let outs := join_run inflate c (init_rst b) term l in
+    Forall (fun o : jout => snd o <> Some RIoEOF) outs /\
+    forall i x e, nth_error outs i = Some (x, Some e) ->
+      x = [] /\ e = of_berror (BErr (fault (src b))) /\ e <> RIoEOF /\
+      jbytes (firstn i outs) = joined term (data_msgs (events_of fs)) /\
+      forall j, (i <= j)%nat -> (j < length outs)%nat -> nth_error outs j = Some ([], Some e).
+Proof. exact join_first_error. Qed.
+Print Assumptions C03_join_first_error.
+
+(* ... the error with which the ReadMessage loop ends on the same stream *)
+Theorem C03_join_error_is_next_reader_error :
+  forall inflate c b fs,
+    custom_handlers c = false -> binv b -> (125 <= bsize b)%nat ->
+    conformant_frames c fs -> pending b = encode_frames fs -> trailer fs <> [] ->
+    let ms := data_msgs (events_of fs) in
+    exists s', run_ops inflate c (init_rst b) (repeat OReadMessage (S (length ms))) =
+                 (map out_of ms ++ [RMsg 0 [] (Some (of_berror (BErr (fault (src b)))))], s').
+Proof. exact join_error_is_next_reader_error. Qed.
+Print Assumptions C03_join_error_is_next_reader_error.
+
+(* (d) the bytes do not depend on the read sizes, nor on the transport chunking, buffer size,
+   initial buffering or fault kind *)
+Theorem C03_join_independent :
+  forall inflate1 inflate2 c1 c2 b1 b2 fs term l1 l2,
+    custom_handlers c1 = false -> custom_handlers c2 = false -> server c1 = server c2 ->
+    binv b1 -> binv b2 -> (125 <= bsize b1)%nat -> (125 <= bsize b2)%nat ->
+    conformant_frames c1 fs -> trailer fs <> [] ->
+    pending b1 = encode_frames fs -> pending b2 = encode_frames fs ->
+    Forall (fun m => (0 < m)%nat) l1 -> Forall (fun m => (0 < m)%nat) l2 ->
+    let ms := data_msgs (events_of fs) in
+    (length (joined term ms) + length ms <= length l1)%nat ->
+    (length (joined term ms) + length ms <= length l2)%nat ->
+    jbytes (join_run inflate1 c1 (init_rst b1) term l1) = jbytes (join_run inflate2 c2 (init_rst b2) term l2).
+Proof. exact join_independent. Qed.
+Print Assumptions C03_join_independent.
+
+(* (a)+(b) when ANYTHING may follow the frames on the transport (more frames, garbage; nothing
+   if a control frame follows the last data frame): for the calls made while messages of fs are
+   left (o1); calls are left over (o2) only once everything has been delivered *)
+Theorem C03_join_any_continuation :
+  forall inflate c b fs extra term l,
+    custom_handlers c = false -> binv b -> (125 <= bsize b)%nat ->
+    conformant_frames c fs -> pending b = encode_frames fs ++ extra ->
+    (trailer fs = [] -> extra <> []) -> Forall (fun m => (0 < m)%nat) l ->
+    let ms := data_msgs (events_of fs) in
+    exists o1 o2 rest,
+      join_run inflate c (init_rst b) term l = o1 ++ o2 /\
+      Forall (fun o : jout => snd o = None) o1 /\
+      Forall2 (fun m (o:jout) => (length (fst o) <= m)%nat) (firstn (length o1) l) o1 /\
+      joined term ms = jbytes o1 ++ rest /\ (o2 = [] \/ rest = []) /\
+      ((length (joined term ms) + length ms <= length l)%nat ->
+         rest = [] /\ length (filter silent o1) = length ms /\
+         (length o1 <= length (joined term ms) + length ms)%nat).
+Proof. exact join_stream_prefix. Qed.
+Print Assumptions C03_join_any_continuation.
+
+(* the hypothesis "a control frame (any byte) follows the last data frame" is forced: when the
+   last payload bytes arrive together with io.EOF the message reader returns (n, io.EOF), the
+   joined reader then returns io.EOF itself (c), and with term = "" no call of that message
+   returns (0, nil) (b) *)
+Example C03_join_why_a_byte_must_follow :
+  conformant_frames ReadProgDemo.ex_cfg ReadProgDemo.cx_fs /\ binv ReadProgDemo.cx_b /\
+  (125 <= bsize ReadProgDemo.cx_b)%nat /\
+  pending ReadProgDemo.cx_b = encode_frames ReadProgDemo.cx_fs /\ trailer ReadProgDemo.cx_fs = [] /\
+  data_msgs (events_of ReadProgDemo.cx_fs) = [(2, false, ReadProgDemo.cx_payload)] /\
+  join_run JoinDemo.nf ReadProgDemo.ex_cfg (init_rst ReadProgDemo.cx_b) [] [200;200;200]%nat =
+    [(ReadProgDemo.cx_payload, None); ([], Some RIoEOF); ([], Some RIoEOF)] /\
+  join_run JoinDemo.nf ReadProgDemo.ex_cfg (init_rst ReadProgDemo.cx_b) [10] [200;200;200;200]%nat =
+    [(ReadProgDemo.cx_payload, None); ([10], None); ([], None); ([], Some RIoEOF)].
+Proof. exact JoinDemo.join_glued_eof_counterexample. Qed.
+Print Assumptions C03_join_why_a_byte_must_follow.
+
+(* (c) when ANYTHING may follow the frames: every call made while messages of fs are left
+   returns a nil error; when calls are left over (l2) everything has been delivered, the reader
+   stands right after the last data frame ([reached]), and IF NextReader fails there (the
+   transport does not go on with a further message) its error is not io.EOF and all the
+   left-over calls return it (999 - errcount: NextReader's 1000th failure panics) *)
+Theorem C03_join_no_eof_any_continuation :
+  forall inflate c b fs extra term l,
+    custom_handlers c = false -> binv b -> (125 <= bsize b)%nat ->
+    conformant_frames c fs -> pending b = encode_frames fs ++ extra ->
+    (trailer fs = [] -> extra <> []) -> Forall (fun m => (0 < m)%nat) l ->
+    exists o1 l2 st1,
+      join_run inflate c (init_rst b) term l = o1 ++ fst (join_steps inflate c st1 l2) /\
+      Forall (fun o : jout => snd o = None) o1 /\
+      (l2 = [] \/
+       (jbytes o1 = joined term (data_msgs (events_of fs)) /\ reached fs extra (jconn st1) /\
+        forall ty e s', next_reader c (jconn st1) = (RNext ty (Some e), s') ->
+          e <> RIoEOF /\
+          exists m l2', l2 = m :: l2' /\
+            fst (join_steps inflate c st1 l2) =
+              repeat ([], Some e) (S (min (length l2') (999 - errcount s'))))).
+Proof. exact join_stream_end. Qed.
+Print Assumptions C03_join_no_eof_any_continuation.
